@@ -263,7 +263,8 @@ INJECTIONS = ["unknown-field", "leaf-with-selection", "composite-without-selecti
               "two-operations-shared-fragment-variable-types",
               "abstract-no-overlap", "abstract-partial-overlap", "abstract-in-abstract-no-overlap",
               "type-definition-in-document", "type-extension-in-document",
-              "skipped-spread-then-spread", "skipped-variable-spread-then-spread", "cyclic-subscription-fragments", "self-spreading-subscription-fragment"]
+              "skipped-spread-then-spread", "skipped-variable-spread-then-spread", "cyclic-subscription-fragments", "self-spreading-subscription-fragment",
+              "two-subscriptions-shared-fragment", "two-subscriptions-shared-fragment-second-invalid"]
 
 
 def normalise(doc):
@@ -521,6 +522,14 @@ def _inject(doc, label, rng):
             op["name"] = "Main"
     elif label in ("type-definition-in-document", "type-extension-in-document"):
         doc["defs"].append({"k": "typedef", "name": "Extra", "op": "", "vars": [], "on": "", "sel": [], "text": "type Extra { a: Int }" if label.startswith("type-def") else "extend type Obj { extra: Int }"})
+    elif label.startswith("two-subscriptions-shared-fragment"):
+        # per-operation bookkeeping must not leak: both subscriptions reach the same fragment
+        doc["defs"].append({"k": "frag", "name": "SubShared", "op": "", "vars": [], "on": "Subscription", "sel": [field("s1", "shared")]})
+        doc["defs"].append({"k": "op", "name": "SubOne", "op": "subscription", "vars": [], "on": "", "sel": [spread("SubShared")]})
+        second = [spread("SubShared")] + ([field("s2")] if label.endswith("second-invalid") else [])
+        doc["defs"].append({"k": "op", "name": "SubTwo", "op": "subscription", "vars": [], "on": "", "sel": second})
+        if not op["name"]:
+            op["name"] = "Main"
     elif label == "repeated-inline-unknown-field":
         op["sel"].append(field("o", "riu", [], [inline("Obj", [field("a")]), inline("Obj", [field("nope")])]))
     elif label == "bad-variable-default":
